@@ -382,6 +382,8 @@ func init() {
 			c.R.AddKnown(k.ID, still, k.What, fmt.Sprintf("first pass: %q err=%v; second pass: %q err=%v", o1.String(), e1, o2.String(), e2))
 		}
 		st.End()
+		c09JsonStage(c)
+		c09EmbedStage(c, c09Docs(c.Repo, c.N(260000, 4000000)), node, mDef)
 		return nil
 	})
 }
